@@ -387,6 +387,28 @@ impl Val for Al16 {
     }
 }
 
+/// Plain data aligned beyond what the global allocator and u128 give (32 bytes).
+#[derive(Clone, Copy, Debug, PartialEq, Eq, Serialize, Deserialize)]
+#[repr(C, align(32))]
+pub struct Al32(pub u64, pub u64);
+
+impl Val for Al32 {
+    const CLASS: u8 = 0;
+    const TRACKED: bool = false;
+    fn make(pay: u64) -> Self {
+        Al32(pay, !pay)
+    }
+    fn obs(&self) -> Obs {
+        Obs { inst: 0, pay: if self.1 == !self.0 { self.0 } else { self.0 ^ 0xbad } }
+    }
+    fn set_pay(&mut self, pay: u64) {
+        *self = Self::make(pay);
+    }
+    fn norm(pay: u64) -> u64 {
+        pay
+    }
+}
+
 /// Plain data whose size (12) is not a multiple of 8 with alignment 4.
 #[derive(Clone, Copy, Debug, PartialEq, Eq, Serialize, Deserialize)]
 #[repr(C)]
